@@ -37,6 +37,10 @@ network = create_bitcoinish_network(
 _wif_prefix = h2b("ef")
 _bip32_prv_prefix = h2b("04358394")
 _bip32_pub_prefix = h2b("043587CF")
+_bip49_prv_prefix = h2b("044a4e28")
+_bip49_pub_prefix = h2b("044a5262")
+_bip84_prv_prefix = h2b("045f18bc")
+_bip84_pub_prefix = h2b("045f1cf6")
 
 
 def b2a_hashed_base58_grs(data: bytes) -> str:
@@ -48,6 +52,16 @@ def bip32_as_string(blob: bytes, as_private: bool) -> str:
     return b2a_hashed_base58_grs(prefix + blob)
 
 
+def bip49_as_string(blob: bytes, as_private: bool) -> str:
+    prefix = _bip49_prv_prefix if as_private else _bip49_pub_prefix
+    return b2a_hashed_base58_grs(prefix + blob)
+
+
+def bip84_as_string(blob: bytes, as_private: bool) -> str:
+    prefix = _bip84_prv_prefix if as_private else _bip84_pub_prefix
+    return b2a_hashed_base58_grs(prefix + blob)
+
+
 def wif_for_blob(blob: bytes) -> str:
     return b2a_hashed_base58_grs(_wif_prefix + blob)
 
@@ -55,6 +69,8 @@ def wif_for_blob(blob: bytes) -> str:
 assert network.address is not None
 network.address.b2a = b2a_hashed_base58_grs
 network.bip32_as_string = bip32_as_string
+network.bip49_as_string = bip49_as_string
+network.bip84_as_string = bip84_as_string
 network.wif_for_blob = wif_for_blob
 
 # Cause parsing to fail and tests to skip.
